@@ -622,7 +622,7 @@ fn gen_pats(r: &mut Rng, with_la: bool, n: usize, numbering: usize) -> Vec<PatSp
         2 => (0..n).map(|i| 3 + 2 * i).collect(),
         _ => {
             let mut v: Vec<usize> = (0..n).map(|i| i * 3 + 1).collect();
-            v.rotate_left(1);
+            if !v.is_empty() { v.rotate_left(1); }
             v
         }
     };
@@ -641,7 +641,8 @@ fn boundaries(s: &str) -> Vec<usize> {
 }
 
 fn gen_case(family: &str, r: &mut Rng) -> Case {
-    let npat = 1 + r.below(3);
+    // a mode without patterns is a valid configuration (it yields no tokens)
+    let npat = if r.below(16) == 0 { 0 } else { 1 + r.below(3) };
     let numbering = r.below(4);
     match family {
         "stream" | "lookahead" => {
@@ -658,7 +659,7 @@ fn gen_case(family: &str, r: &mut Rng) -> Case {
             let mut modes = vec![];
             // shared pool of token types so that types are shared between modes
             for mi in 0..nm {
-                let np = 1 + r.below(4);
+                let np = if r.below(8) == 0 { 0 } else { 1 + r.below(4) };
                 let with_la = family != "modes" && r.below(4) == 0;
                 let pats = gen_pats(r, with_la, np, if family == "modes" { 0 } else { numbering });
                 let mut tts: Vec<usize> = pats.iter().map(|p| p.tt).collect();
